@@ -312,6 +312,157 @@ let suite_rds (t : toks) : string =
      | (Err _ | Panic _) as r -> show_res_err r
      | Ok (v, s) -> fin v (List.length s.rbuf))
 
-let suites = [ ("rds", suite_rds); ("urt", suite_urt); ("usk", suite_usk); ("rt", suite_rt); ("rd", suite_rd); ("ard", suite_ard); ("sk", suite_sk);
+(* ---- round 4: message sequences, ApplicationException ---- *)
+let ttype_of_val (v : tval) : ttype = match v with
+  | VBool _ -> TBool | VI8 _ -> TI8 | VI16 _ -> TI16 | VI32 _ -> TI32 | VI64 _ -> TI64
+  | VDouble _ -> TDouble | VBinary _ -> TBinary | VUuid _ -> TUuid | VStruct _ -> TStruct
+  | VList _ -> TList | VSet _ -> TSet | VMap _ -> TMap
+
+let show_msgs (b : Buffer.t) (ms : (msgid * tval) list) : unit =
+  Buffer.add_string b " R";
+  List.iter (fun (m, v) ->
+      Buffer.add_string b (Printf.sprintf " %s %d %s " (hex_of_bytes m.m_name) (int_of_z (mtype_code m.m_type)) (string_of_z m.m_seq));
+      show_val b v) ms
+
+(* mrt <binary|binary_le|compact|unsafe> <bk> <sync|async:sched> <rest hex> <n> (<name hex> <type> <seq> <value>)*n *)
+let suite_mrt (t : toks) : string =
+  let pks = next t in
+  let bks = next t in
+  let mode = next t in
+  let rest = bytes_of_hex (next t) in
+  let n = next_int t in
+  let rec rep n = if n <= 0 then [] else
+      let name = bytes_of_hex (next t) in
+      let mt = mtype_of_int (next_int t) in
+      let seq = z_of_string (next t) in
+      let v = parse_val t in
+      ({ m_name = name; m_type = mt; m_seq = seq }, v) :: rep (n - 1) in
+  let msgs = rep n in
+  let tys = List.map (fun (_, v) -> ttype_of_val v) msgs in
+  if pks = "unsafe" then begin
+    (* the size the caller computes: checked binary lengths (envelope 4 + 4 + |name| + 4) *)
+    let size = List.fold_left (fun acc (m, v) ->
+        match len_val PBinary v w0 with
+        | Ok (n, _) -> Z.add acc (Z.add n (z_of_int (12 + List.length m.m_name)))
+        | _ -> acc) Z0 msgs in
+    let (zc, st0) = (match bks with
+        | "contig" -> (false, uw_contig size) | "linked" -> (false, uw_linked size) | "linked_zc" -> (true, uw_linked size)
+        | s -> failwith ("bad buffer kind " ^ s)) in
+    let rec wr ms st acc = match ms with
+      | [] -> Ok (acc, st)
+      | (m, v) :: tl ->
+        (match uw_message_begin zc m st with
+         | Ok (s1, st1) -> (match uwrite_val zc v st1 with
+             | Ok (s2, st2) -> wr tl st2 (acc @ s1 @ s2)
+             | Err e -> Err e | Panic x -> Panic x)
+         | Err e -> Err e | Panic x -> Panic x) in
+    match wr msgs st0 [] with
+    | (Err _ | Panic _) as r -> "WERR " ^ show_res_err r
+    | Ok (segs, _) ->
+      let bytes = flat segs in
+      let b = Buffer.create 256 in
+      Buffer.add_string b ("W " ^ hex_of_bytes bytes);
+      let input = bytes @ rest in
+      let fuel = nat_of_int (List.length input + 2) in
+      let rec rd tys s acc = match tys with
+        | [] -> Ok (List.rev acc, s)
+        | ty :: tl ->
+          (match u_message_begin s with
+           | Ok (m, s1) -> (match uread_val fuel ty s1 with
+               | Ok (v, s2) -> rd tl s2 ((m, v) :: acc)
+               | Err e -> Err e | Panic x -> Panic x)
+           | Err e -> Err e | Panic x -> Panic x) in
+      (match rd tys { ubuf = input; uidx = O } [] with
+       | (Err _ | Panic _) as r -> Buffer.add_string b (" RERR " ^ show_res_err r)
+       | Ok (ms, s) -> show_msgs b ms; Buffer.add_string b (Printf.sprintf " REM %d" (List.length (urest s))));
+      Buffer.contents b
+  end else begin
+    let p = pk_of_string pks in
+    let k = bk_of_string bks in
+    let rec wr ms c acc = match ms with
+      | [] -> Ok (acc, c)
+      | (m, v) :: tl ->
+        (match wseq (wseq (w_message_begin p k m) (write_val p k v)) (w_message_end p) c with
+         | Ok (s1, c1) -> wr tl c1 (acc @ s1)
+         | Err e -> Err e | Panic x -> Panic x) in
+    match wr msgs w0 [] with
+    | (Err _ | Panic _) as r -> "WERR " ^ show_res_err r
+    | Ok (segs, _) ->
+      let bytes = flat segs in
+      let b = Buffer.create 256 in
+      Buffer.add_string b ("W " ^ hex_of_bytes bytes);
+      let input = bytes @ rest in
+      let fuel = nat_of_int (List.length input + 2) in
+      let sync = (mode = "sync") in
+      let rec rd tys s acc = match tys with
+        | [] -> Ok (List.rev acc, s)
+        | ty :: tl ->
+          (match (if sync then r_message_begin p s else a_message_begin p s) with
+           | Ok (m, s1) -> (match (if sync then read_val p fuel ty s1 else aread_val p fuel ty s1) with
+               | Ok (v, s2) -> rd tl s2 ((m, v) :: acc)
+               | Err e -> Err e | Panic x -> Panic x)
+           | Err e -> Err e | Panic x -> Panic x) in
+      (match rd tys { rbuf = input; rc = r0 } [] with
+       | (Err _ | Panic _) as r -> Buffer.add_string b (" RERR " ^ show_res_err r)
+       | Ok (ms, s) -> show_msgs b ms; Buffer.add_string b (Printf.sprintf " REM %d" (List.length s.rbuf)));
+      Buffer.contents b
+  end
+
+(* apps <pk> <bk> <plain|box|arc> <n> op*n *)
+let suite_apps (t : toks) : string =
+  let p = pk_of_string (next t) in
+  let k = bk_of_string (next t) in
+  let _wrap = next t in
+  let n = next_int t in
+  let b = Buffer.create 128 in
+  Buffer.add_string b "A";
+  let flatlen segs = List.length (flat segs) in
+  let rec go i c acc =
+    if i >= n then Ok (acc, c) else
+      match next t with
+      | "z" ->
+        let m = bytes_of_hex (next t) in
+        let kd = z_of_string (next t) in
+        (match app_size p m kd c with
+         | Ok (sz, c1) -> Buffer.add_string b (" Z" ^ string_of_z sz); go (i + 1) c1 acc
+         | Err e -> Err e | Panic x -> Panic x)
+      | "e" ->
+        let m = bytes_of_hex (next t) in
+        let kd = z_of_string (next t) in
+        (match app_encode p k m kd c with
+         | Ok (s1, c1) -> Buffer.add_string b (Printf.sprintf " E%d" (flatlen s1)); go (i + 1) c1 (acc @ s1)
+         | Err e -> Err e | Panic x -> Panic x)
+      | "o" ->
+        let id = z_of_string (next t) in
+        (match wseq (w_struct_begin p) (w_field_begin p TStruct id) c with
+         | Ok (s1, c1) -> Buffer.add_string b (Printf.sprintf " O%d" (flatlen s1)); go (i + 1) c1 (acc @ s1)
+         | Err e -> Err e | Panic x -> Panic x)
+      | "c" ->
+        (match wseq (wseq (w_field_end p) (w_field_stop p)) (w_struct_end p) c with
+         | Ok (s1, c1) -> Buffer.add_string b (Printf.sprintf " C%d" (flatlen s1)); go (i + 1) c1 (acc @ s1)
+         | Err e -> Err e | Panic x -> Panic x)
+      | s -> failwith ("bad op " ^ s) in
+  (match go 0 w0 [] with
+   | Ok (segs, _) -> Buffer.add_string b (" W " ^ hex_of_bytes (flat segs))
+   | (Err _ | Panic _) as r -> Buffer.add_string b (" ERR " ^ show_res_err r));
+  Buffer.contents b
+
+(* appr <pk> <hex> / aappr <pk> <hex> <sched> : ApplicationException::decode / ::decode_async *)
+let show_app r =
+  match r with
+  | (Err _ | Panic _) as r -> show_res_err r
+  | Ok ((m, kd), s) -> Printf.sprintf "ok %s %s REM %d" (hex_of_bytes m) (string_of_z kd) (List.length s.rbuf)
+let suite_appr (t : toks) : string =
+  let p = pk_of_string (next t) in
+  let input = bytes_of_hex (next t) in
+  show_app (app_decode p (nat_of_int (List.length input + 2)) { rbuf = input; rc = r0 })
+let suite_aappr (t : toks) : string =
+  let p = pk_of_string (next t) in
+  let input = bytes_of_hex (next t) in
+  let _ = next t in
+  show_app (app_decode_async p (nat_of_int (List.length input + 2)) { rbuf = input; rc = r0 })
+
+let suites = [ ("mrt", suite_mrt); ("apps", suite_apps); ("appr", suite_appr); ("aappr", suite_aappr);
+               ("rds", suite_rds); ("urt", suite_urt); ("usk", suite_usk); ("rt", suite_rt); ("rd", suite_rd); ("ard", suite_ard); ("sk", suite_sk);
                ("msgw", suite_msgw); ("msgr", suite_msgr); ("spec", suite_spec); ("specmsg", suite_specmsg);
                ("appw", suite_appw) ]
